@@ -17,8 +17,11 @@ Record rstate := mkRstate {
   r_h : hinfo; r_saved : list saved; r_sofcode : Z; r_frame : option frame;
   r_qt : slots (list Z);                  (* quant_tbl_ptrs[n]->quantval, natural order *)
   r_dc : slots (list Z * list Z);         (* dc_huff_tbl_ptrs[n]: bits[1..16], huffval[0..count-1] *)
-  r_ac : slots (list Z * list Z) }.
-Definition rstate_init : rstate := mkRstate hinfo_init [] 0 None slots_empty slots_empty slots_empty.
+  r_ac : slots (list Z * list Z);
+  r_dac : Z -> Z }.                       (* index 0..15: arith_dc_L + 16 * arith_dc_U; 16..31: arith_ac_K *)
+(* get_soi: arith_dc_L = 0, arith_dc_U = 1, arith_ac_K = 5 *)
+Definition dac_init : Z -> Z := fun k => if k <? NUM_ARITH_TBLS then 16 else 5.
+Definition rstate_init : rstate := mkRstate hinfo_init [] 0 None slots_empty slots_empty slots_empty dac_init.
 
 (* ------------------------------------------------------------------- DQT *)
 (* quantval[jpeg_natural_order[i]] = zz[i] *)
@@ -121,6 +124,26 @@ Definition get_dht (dc ac : slots (list Z * list Z)) (bs : list Z) :=
   | Some (l, r) => get_dht_loop (Z.to_nat l) (l - 2) dc ac r
   end.
 
+(* ------------------------------------------------------------------- DAC *)
+Fixpoint get_dac_loop (fuel : nat) (length : Z) (dac : Z -> Z) (bs : list Z) : option ((Z -> Z) * list Z) :=
+  if length <=? 0 then (if length =? 0 then Some (dac, bs) else None)
+  else match fuel with
+  | O => None
+  | S f =>
+      match bs with
+      | index :: val :: r =>
+          if (index <? 0) || (2 * NUM_ARITH_TBLS <=? index) then None              (* JERR_DAC_INDEX *)
+          else if (index <? NUM_ARITH_TBLS) && (val / 16 <? val mod 16) then None     (* JERR_DAC_VALUE: L > U *)
+          else get_dac_loop f (length - 2) (fun k => if k =? index then val else dac k) r
+      | _ => None
+      end
+  end.
+Definition get_dac (dac : Z -> Z) (bs : list Z) : option ((Z -> Z) * list Z) :=
+  match get_2bytes bs with
+  | None => None
+  | Some (l, r) => get_dac_loop (Z.to_nat l) (l - 2) dac r
+  end.
+
 (* ------------------------------------------------ one marker, any sequence *)
 Definition set_restart (h : hinfo) (ri : Z) : hinfo :=
   mkHinfo (h_saw_jfif h) (h_major h) (h_minor h) (h_unit h) (h_xd h) (h_yd h) (h_saw_adobe h) (h_transform h) ri.
@@ -129,33 +152,42 @@ Definition set_restart (h : hinfo) (ri : Z) : hinfo :=
 Definition marker_step (c : cfg) (st : rstate) (code : Z) (bs : list Z) : option (rstate * list Z) :=
   if is_app_or_com code then
     match process_app c code (r_h st) (r_saved st) bs with
-    | Some (h', acc', r) => Some (mkRstate h' acc' (r_sofcode st) (r_frame st) (r_qt st) (r_dc st) (r_ac st), r)
+    | Some (h', acc', r) => Some (mkRstate h' acc' (r_sofcode st) (r_frame st) (r_qt st) (r_dc st) (r_ac st) (r_dac st), r)
     | None => None
     end
   else if code =? M_DRI then
     match get_dri bs with
-    | Some (ri, r) => Some (mkRstate (set_restart (r_h st) ri) (r_saved st) (r_sofcode st) (r_frame st) (r_qt st) (r_dc st) (r_ac st), r)
+    | Some (ri, r) => Some (mkRstate (set_restart (r_h st) ri) (r_saved st) (r_sofcode st) (r_frame st) (r_qt st) (r_dc st) (r_ac st) (r_dac st), r)
     | None => None
     end
   else if code =? M_DQT then
     match get_dqt (r_qt st) bs with
-    | Some (qt, r) => Some (mkRstate (r_h st) (r_saved st) (r_sofcode st) (r_frame st) qt (r_dc st) (r_ac st), r)
+    | Some (qt, r) => Some (mkRstate (r_h st) (r_saved st) (r_sofcode st) (r_frame st) qt (r_dc st) (r_ac st) (r_dac st), r)
     | None => None
     end
   else if code =? M_DHT then
     match get_dht (r_dc st) (r_ac st) bs with
-    | Some (dc, ac, r) => Some (mkRstate (r_h st) (r_saved st) (r_sofcode st) (r_frame st) (r_qt st) dc ac, r)
+    | Some (dc, ac, r) => Some (mkRstate (r_h st) (r_saved st) (r_sofcode st) (r_frame st) (r_qt st) dc ac (r_dac st), r)
     | None => None
     end
   else if code =? M_DAC then
-    (* arithmetic conditioning: stepped over by its length word (its contents are outside C16) *)
-    match skip_segment bs with Some r => Some (st, r) | None => None end
+    match get_dac (r_dac st) bs with
+    | Some (dac, r) => Some (mkRstate (r_h st) (r_saved st) (r_sofcode st) (r_frame st) (r_qt st) (r_dc st) (r_ac st) dac, r)
+    | None => None
+    end
+  else if code =? M_DNL then
+    (* "Ignore DNL ... perhaps the wrong thing": skip_variable *)
+    match get_2bytes bs with
+    | Some (l, r) => if Zlength r <? l - 2 then None else Some (st, skipn (Z.to_nat (l - 2)) r)
+    | None => None
+    end
+  else if ((M_RST0 <=? code) && (code <=? M_RST7)) || (code =? M_TEM) then Some (st, bs)   (* parameterless: traced, ignored *)
   else match sof_flags code with
        | Some _ =>
            match r_frame st with
            | Some _ => None                                   (* JERR_SOF_DUPLICATE *)
            | None => match get_sof bs with
-                     | Some (fr, r) => Some (mkRstate (r_h st) (r_saved st) code (Some fr) (r_qt st) (r_dc st) (r_ac st), r)
+                     | Some (fr, r) => Some (mkRstate (r_h st) (r_saved st) code (Some fr) (r_qt st) (r_dc st) (r_ac st) (r_dac st), r)
                      | None => None
                      end
            end
@@ -188,7 +220,9 @@ Inductive amarker :=
 | ADri (ri : Z)
 | ADqt (ts : list qtable)
 | ADht (ts : list htable)
-| ASof (code : Z) (f : frame).
+| ASof (code : Z) (f : frame)
+| ADac (pairs : list (Z * Z))              (* (Tc*16+Tb, value) *)
+| ADnl (data : list Z).
 
 (* what the decompressor looks at of a COM/APPn marker: (bytes, datalen) handed to examine_app0/14 *)
 Definition app_seen (c : cfg) (code : Z) (data : list Z) : list Z * Z :=
@@ -213,15 +247,18 @@ Definition apply_marker (c : cfg) (st : rstate) (m : amarker) : option rstate :=
   | AApp code data =>
       let '(seen, n) := app_seen c code data in
       let h' := examine code (r_h st) seen n in          (* examine only looks at APP0 / APP14 *)
-      Some (mkRstate h' (r_saved st ++ app_keep c code data) (r_sofcode st) (r_frame st) (r_qt st) (r_dc st) (r_ac st))
-  | ADri ri => Some (mkRstate (set_restart (r_h st) ri) (r_saved st) (r_sofcode st) (r_frame st) (r_qt st) (r_dc st) (r_ac st))
-  | ADqt ts => Some (mkRstate (r_h st) (r_saved st) (r_sofcode st) (r_frame st) (fold_left apply_qt ts (r_qt st)) (r_dc st) (r_ac st))
+      Some (mkRstate h' (r_saved st ++ app_keep c code data) (r_sofcode st) (r_frame st) (r_qt st) (r_dc st) (r_ac st) (r_dac st))
+  | ADri ri => Some (mkRstate (set_restart (r_h st) ri) (r_saved st) (r_sofcode st) (r_frame st) (r_qt st) (r_dc st) (r_ac st) (r_dac st))
+  | ADqt ts => Some (mkRstate (r_h st) (r_saved st) (r_sofcode st) (r_frame st) (fold_left apply_qt ts (r_qt st)) (r_dc st) (r_ac st) (r_dac st))
   | ADht ts => let da := fold_left apply_ht ts (r_dc st, r_ac st) in
-               Some (mkRstate (r_h st) (r_saved st) (r_sofcode st) (r_frame st) (r_qt st) (fst da) (snd da))
+               Some (mkRstate (r_h st) (r_saved st) (r_sofcode st) (r_frame st) (r_qt st) (fst da) (snd da) (r_dac st))
   | ASof code f => match r_frame st with
                    | Some _ => None
-                   | None => Some (mkRstate (r_h st) (r_saved st) code (Some f) (r_qt st) (r_dc st) (r_ac st))
+                   | None => Some (mkRstate (r_h st) (r_saved st) code (Some f) (r_qt st) (r_dc st) (r_ac st) (r_dac st))
                    end
+  | ADac pairs => Some (mkRstate (r_h st) (r_saved st) (r_sofcode st) (r_frame st) (r_qt st) (r_dc st) (r_ac st)
+                                 (fold_left (fun d iv => fun k => if k =? fst iv then snd iv else d k) pairs (r_dac st)))
+  | ADnl _ => Some st
   end.
 Fixpoint apply_markers (c : cfg) (st : rstate) (ms : list amarker) : option rstate :=
   match ms with
@@ -241,6 +278,9 @@ Definition emit_amarker (m : amarker) : option (list Z) :=
   | ADqt ts => let body := flat_map qt_bytes ts in Some (emit_marker M_DQT ++ emit_2bytes (Zlength body + 2) ++ body)
   | ADht ts => let body := flat_map ht_bytes ts in Some (emit_marker M_DHT ++ emit_2bytes (Zlength body + 2) ++ body)
   | ASof code f => emit_sof code f
+  | ADac pairs => let body := flat_map (fun iv => [byte_of (fst iv); byte_of (snd iv)]) pairs in
+                  Some (emit_marker M_DAC ++ emit_2bytes (Zlength body + 2) ++ body)
+  | ADnl data => write_marker (M_DNL, data)
   end.
 Fixpoint emit_amarkers (ms : list amarker) : option (list Z) :=
   match ms with
@@ -269,7 +309,8 @@ Definition fill_slot {A} (s : slots A) (k : Z) (v : A) : slots A := match s k wi
 Definition std_fill (st : rstate) : rstate :=
   mkRstate (r_h st) (r_saved st) (r_sofcode st) (r_frame st) (r_qt st)
     (fill_slot (fill_slot (r_dc st) 0 (tl std_bits_dc_luminance, std_val_dc_luminance)) 1 (tl std_bits_dc_chrominance, std_val_dc_chrominance))
-    (fill_slot (fill_slot (r_ac st) 0 (tl std_bits_ac_luminance, std_val_ac_luminance)) 1 (tl std_bits_ac_chrominance, std_val_ac_chrominance)).
+    (fill_slot (fill_slot (r_ac st) 0 (tl std_bits_ac_luminance, std_val_ac_luminance)) 1 (tl std_bits_ac_chrominance, std_val_ac_chrominance))
+    (r_dac st).
 Definition sequential_huffman (code : Z) : bool :=
   match sof_flags code with Some (false, false, false) => true | _ => false end.
 
